@@ -817,15 +817,19 @@ structure AttrChar where
   isQuoting : Bool
   deriving DecidableEq, Repr
 
-/-- `apply_escapes`: left-to-right, an unquoted non-quoting backslash with a successor becomes quoting
-    and its successor quoted -/
+/-- `apply_escapes` (after fix 9da0f0e), left to right: an unquoted non-quoting backslash that some NON-QUOTING
+    character follows becomes quoting, and the NEXT non-quoting character becomes quoted (quoting characters in
+    between are stepped over untouched; `quoteThis` = a backslash before is waiting for its character).  A backslash
+    followed by quoting characters only, up to the end, stays what it was. -/
 def applyEscapesAux (quoteThis : Bool) : List AttrChar → List AttrChar
   | [] => []
   | a :: t =>
-    let a' : AttrChar := if quoteThis then { a with isQuoted := true } else a
-    if a'.value = '\\' ∧ a'.isQuoting = false ∧ a'.isQuoted = false ∧ t ≠ [] then
-      { a' with isQuoting := true } :: applyEscapesAux true t
-    else a' :: applyEscapesAux false t
+    if a.isQuoting then a :: applyEscapesAux quoteThis t
+    else
+      let a' : AttrChar := if quoteThis then { a with isQuoted := true } else a
+      if a'.value = '\\' ∧ a'.isQuoted = false ∧ t.any (fun c => !c.isQuoting) = true then
+        { a' with isQuoting := true } :: applyEscapesAux true t
+      else a' :: applyEscapesAux false t
 
 def applyEscapes (cs : List AttrChar) : List AttrChar := applyEscapesAux false cs
 
